@@ -26,6 +26,8 @@ mpath, info = cfgbuild.build(list(cfgbuild.ALL) + [cfgbuild.UNSUPPORTED], jobs=4
 for conf, d in info['configurations'].items():
     print('cfg build', conf, 'ok' if d['built'] else 'FAILED ' + d['detail'][:120], '%.0fs' % d['seconds'], flush=True)
 bad = [c for c, d in info['configurations'].items() if not d['built'] and c != cfgbuild.UNSUPPORTED]
-sys.exit(1 if bad else 0)
+# a configuration that does not build is reported by ./check C19 itself (with the build error as detail); it must not fail the setup
+print('cfg configurations not built:', bad)
+sys.exit(0)
 PY
 echo setup done
